@@ -4,7 +4,7 @@ import json,os,re,glob,subprocess
 head=subprocess.run("git -C /repo log --format=%h -1",shell=True,capture_output=True,text=True).stdout.strip()
 conf=open('/tmp/confirm_all.log').read() if os.path.exists('/tmp/confirm_all.log') else ''
 rows=[]
-for d in sorted(glob.glob('/verif/seeded/C*/[abcd]')):
+for d in sorted(glob.glob('/verif/seeded/C*/[a-f]')):
     p,v=d.split('/')[-2:]
     mp=os.path.join(d,'meta.json')
     try: m=json.load(open(mp))
